@@ -41,6 +41,17 @@ def contract(prop, target, params=None, level='proved', covers=(), budget=60.0, 
     return deco
 
 
+def share(prop, fn_names):
+    """register contracts that already exist under another property under `prop` as well (the
+    same function and instances): a statement that two properties both depend on is checked by
+    each property's command"""
+    have = set((c.prop, c.fn.__module__, c.name) for c in REGISTRY)
+    for c in list(REGISTRY):
+        if c.fn.__name__ in fn_names and c.prop != prop and (prop, c.fn.__module__, c.name) not in have:
+            REGISTRY.append(Contract(prop, c.target, c.fn, c.name, c.params, c.level, c.covers, c.budget, c.tier, c.note))
+            have.add((prop, c.fn.__module__, c.name))
+
+
 def load_contracts(prop=None):
     """import every module under /verif/contracts (or only c<prop>.py)"""
     here = os.path.dirname(os.path.dirname(os.path.abspath(__file__)))
